@@ -103,6 +103,11 @@ def judge_network(base, pal, res, only_ref=None):
     zs = [abs(z) for z in (rn.immittance(b)[0] for b in base["branches"]) if z is not None and z]
     zscale = max(zs) if zs else 1.0
     whole_wp = rn.well_posed(base)
+    if rn.has_zero_impedance_loop(base):
+        # a loop of ideal voltage sources / shorts: ill-posed for every source value, outside the domain
+        res["evals"] += len(nodes)
+        bump(res["skipped"], "zero_impedance_loop", len(nodes))
+        return
     # exact port impedances (reference independent by construction of the reference)
     exact = {}
     for a, b_ in itertools.combinations(nodes, 2):
